@@ -95,8 +95,10 @@ impl BumpAllocator {
         loop {
             let current = self.current.load(Ordering::Acquire);
 
-            // Calculate aligned offset
-            let aligned_offset = (current + align - 1) & !(align - 1);
+            // Calculate aligned offset. Align the ADDRESS, not the offset: the buffer
+            // itself is only guaranteed to be 8-byte aligned.
+            let base = self.buffer.as_ptr() as usize;
+            let aligned_offset = ((base + current + align - 1) & !(align - 1)) - base;
             let new_offset = aligned_offset + size;
 
             if new_offset > self.capacity {
@@ -162,7 +164,8 @@ impl BumpAllocator {
     /// may allocate between this check and the actual allocation.
     pub fn can_allocate(&self, size: usize, align: usize) -> bool {
         let current = self.current.load(Ordering::Relaxed);
-        let aligned_offset = (current + align - 1) & !(align - 1);
+        let base = self.buffer.as_ptr() as usize;
+        let aligned_offset = ((base + current + align - 1) & !(align - 1)) - base;
         aligned_offset + size <= self.capacity
     }
 }
